@@ -71,5 +71,5 @@ target("breezy/bzr/smart/message.py::ConventionalResponseHandler._read_more", lo
        raises={"ConnectionResetError": lambda c: lift(c.calls("self._medium_request.read_bytes") == 1 and c.calls("self._protocol_decoder.accept_bytes") == 0),
                "Exception": True},
        canary=lambda c: c.self.finished_reading,
-       equivalent_mutants={r"debug_flag_enabled|mutter": "debug tracing"},
+       equivalent_mutants={r"debug_flag_enabled|mutter|_get_in_buffer\(\)\[:10\]|state_accept\.__name__": "debug tracing"},
        note="the client never asks the connection for more than the decoder's hint")
